@@ -218,6 +218,9 @@ func MakePkt(kind string) *astits.Packet {
 	case "shortaf": // adaptation field + short payload, padded
 		return &astits.Packet{Header: astits.PacketHeader{PID: 0x301, HasPayload: true, HasAdaptationField: true, ContinuityCounter: 8},
 			AdaptationField: &astits.PacketAdaptationField{HasPCR: true, PCR: cr(777, 1), StuffingLength: 3}, Payload: bytes.Repeat([]byte{0x33}, 20)}
+	case "stalebig": // reused struct: HasPayload unset but a stale payload that would not fit is still attached
+		return &astits.Packet{Header: astits.PacketHeader{PID: 0x300, HasAdaptationField: true, ContinuityCounter: 2},
+			AdaptationField: &astits.PacketAdaptationField{HasPCR: true, PCR: cr(5, 5)}, Payload: make([]byte, 184)}
 	case "big": // payload one byte too large
 		return &astits.Packet{Header: astits.PacketHeader{PID: 0x300, HasPayload: true}, Payload: make([]byte, 185)}
 	case "af252": // adaptation field that cannot fit
